@@ -22,7 +22,11 @@ From Coq Require Import ZArith NArith List Bool Arith.
 From CL Require Import Base.Sx Base.Res Base.Str Model.AddRemove Model.Channels
                        Proofs.ChannelsProofs Proofs.ChannelsSpec Model.Serializer
                        Proofs.SerializerProofs Proofs.SerializerSpec Proofs.SerializerFinal
-                       Proofs.ReparsePartial.
+                       Proofs.ReparsePartial
+                       Model.Entry Model.Parse Model.ParseFormats Proofs.C02Blocks
+                       Proofs.MergeShape Proofs.PropsShape Proofs.MergeReparse15 Proofs.SerializeReparse16
+                       Proofs.PropsView Proofs.PropsWrap.
+From Coq Require Import Lia.
 Import ListNotations.
 Local Open Scope nat_scope.
 
@@ -202,4 +206,111 @@ Theorem C16_ws_fold_joins_lines_refuted :
 Proof.
   eexists. split; [vm_compute; reflexivity|]. split; [vm_compute; reflexivity|].
   split; [vm_compute; reflexivity|]. vm_compute. intuition discriminate.
+Qed.
+
+(* ---- the re-parse clause for .properties, from the block theorem of C02 ----------------------
+   Reference and old localization are legal block lists (Proofs/C02Blocks.v) satisfying
+   [version_ok m] (see Properties/C15.v: legal blocks, no "License" in attached comments,
+   distinct keys, newline-terminated, every whitespace entry starts with a newline and from
+   length m on has a second one — the premise that excludes the listed findings
+   serialize-ws-fold-joins-lines / merge-ws-fold-loses-blank-line); the old localization may
+   be the empty list.  Their entries are [centries_of], numbered as fresh objects.
+   [props_wrap wrap]: Entity.wrap splices the raw value in place of the reference value at
+   the end of the entity text (the model's [wrap_props]; the value is the tail of a
+   .properties entity).  New values are legal raw value texts ([legal_rawb]: every physical
+   line but the last ends in an odd number of backslashes, the last in an even number and not
+   in a blank or CR, no leading blank).  The serializer does NO escaping: it splices the raw
+   value verbatim, so outside that class the output parses differently
+   (C16_raw_newline_refuted).
+   Then the bytes re-parse (walk_properties) without junk; the entities are, with key and raw
+   value, exactly the entities of the output entry list [out] (C16_entities / C16_values /
+   C16_nothing_else speak about it): the reference keys that have a value, in reference
+   order; the standalone comments are the comment entries of [out].
+   _partial w.r.t. the property: idempotence at TEXT level (serialize(reference, parse(out), {})
+   = out, byte for byte) is not proved; C16_idempotent gives it at entity level, and together
+   with this theorem the second output re-parses to the same entities. *)
+Theorem C16_reparse_properties : forall m rbs obs wrap nd name txt,
+  version_ok m rbs -> version_ok m obs -> NoDup (map fst nd) -> props_wrap wrap ->
+  (forall k raw, In (k, Some raw) nd -> legal_rawb raw = true) ->
+  let R := number 0 (centries_of rbs) in
+  let L := number (length (centries_of rbs)) (centries_of obs) in
+  serialize wrap name R L nd = Ok txt ->
+  exists out es,
+    serialize_entries wrap R L nd = Ok out /\ txt = concat (map c_text out) /\
+    walk_properties txt = Ok es /\
+    map (fun e => let r := entity_record txt e in (fst (fst r), snd (fst r)))
+        (filter (is_kind KEntity) es) = krecs out /\
+    map fst (krecs out) = filter (has_value L nd) (refkeys R) /\
+    map (fun e => span_text txt (e_span e)) (filter (is_kind KComment) es) = ccoms out /\
+    filter (is_kind KJunk) es = [].
+Proof. exact serialize_reparse_properties. Qed.
+
+Theorem C16_wrap_props_contract : props_wrap wrap_props.
+Proof. intros r raw e H. inversion H. reflexivity. Qed.
+
+(* [wrap_props] is the model's Entity.wrap (apply_wrap over the parse context and the spans
+   of the parsed entity: the function the WRAP suite compares with the implementation) on
+   every entity of the parse of a legal block list; and the entries handed to the theorem
+   are the view of that parse (C15_parse_view_properties) *)
+Theorem C16_wrap_props_is_model_wrap : forall bs, Forall legal_block bs ->
+  forall e, In e (entries_of bs) -> e_kind e = KEntity -> forall raw,
+  apply_wrap (file_text bs) (wrap_info_of e) (c_key (centry_view (file_text bs) e)) raw =
+  wrap_props (centry_view (file_text bs) e) raw.
+Proof. exact wrap_view. Qed.
+
+(* reference  a = A / # note / <blank> / b = B     old  a = la     new_data {b: "nb"} *)
+Definition pe (k v : list nat) : block := BEntity [] (A k) (A [32]) 61%N (A [32]) [] (A v) true.
+Definition rp_ref : list block :=
+  [pe [97] [65]; BComment [(35%N, A [32; 110; 111; 116; 101])]; BBlank (A [10]); pe [98] [66]].
+Definition rp_old : list block := [pe [97] [108; 97]].
+Definition rp_nd : new_data_t := [(A [98], Some (A [110; 98]))].
+
+Ltac wsok_one :=
+  unfold wsok;
+  first [ intros Hw; vm_compute in Hw; discriminate
+        | intros _; eexists; split;
+          [vm_compute; reflexivity
+          |intros Hl; first [vm_compute; reflexivity | exfalso; vm_compute in Hl; lia]] ].
+Ltac nodup_tac := vm_compute; repeat (apply NoDup_cons; [vm_compute; intuition discriminate|]); apply NoDup_nil.
+Ltac version_ok_tac :=
+  split; [repeat constructor|]; split; [repeat constructor|]; split; [split; nodup_tac|];
+  split; [vm_compute; intuition (try discriminate; try lia)|];
+  unfold centries_of; cbn [cents cflush app];
+  repeat (apply Forall_cons; [wsok_one|]); apply Forall_nil.
+
+Example C16_example_reparse_hyps :
+  version_ok 2 rp_ref /\ version_ok 2 rp_old /\ version_ok 2 [] /\ NoDup (map fst rp_nd) /\
+  (forall k raw, In (k, Some raw) rp_nd -> legal_rawb raw = true).
+Proof.
+  split; [version_ok_tac|]. split; [version_ok_tac|]. split; [version_ok_tac|].
+  split; [nodup_tac|]. intros k raw [H|[]]. inversion H. vm_compute. reflexivity.
+Qed.
+
+(* the bytes  a = la / # note / <blank> / b = nb  and their parse *)
+Example C16_example_reparse :
+  exists txt es,
+    serialize wrap_props (s [102;46;112;114;111;112;101;114;116;105;101;115])
+              (number 0 (centries_of rp_ref)) (number (length (centries_of rp_ref)) (centries_of rp_old))
+              rp_nd = Ok txt /\
+    txt = A [97;32;61;32;108;97;10; 35;32;110;111;116;101;10;10; 98;32;61;32;110;98;10] /\
+    walk_properties txt = Ok es /\
+    map (fun e => let r := entity_record txt e in (fst (fst r), snd (fst r)))
+        (filter (is_kind KEntity) es) = [(A [97], A [108; 97]); (A [98], A [110; 98])] /\
+    filter (is_kind KJunk) es = [].
+Proof.
+  eexists. eexists. split; [vm_compute; reflexivity|]. split; [reflexivity|].
+  split; [vm_compute; reflexivity|]. split; vm_compute; reflexivity.
+Qed.
+
+(* the premise on the new values is needed: the raw value "x<newline>y" is spliced in verbatim;
+   the second line is no continuation and re-parses as junk *)
+Theorem C16_raw_newline_refuted :
+  exists name txt es,
+    legal_rawb (A [120; 10; 121]) = false /\
+    serialize wrap_props name (number 0 (centries_of [pe [97] [65]])) [] [(A [97], Some (A [120; 10; 121]))] = Ok txt /\
+    walk_properties txt = Ok es /\ filter (is_kind KJunk) es <> [].
+Proof.
+  exists (s [102;46;112;114;111;112;101;114;116;105;101;115]). eexists. eexists.
+  split; [vm_compute; reflexivity|]. split; [vm_compute; reflexivity|].
+  split; [vm_compute; reflexivity|]. vm_compute. discriminate.
 Qed.
